@@ -162,7 +162,13 @@ ResultLabels(k) ==
     [] k.op = "divmod" -> k.q \o k.r
     [] k.op = "eq" -> <<k.out>>
     [] OTHER -> k.out
-ArithDrift(c) ==
+(* the recorded call trace of a multiplier must be accepted by the weight ledger (Ledger.tla) *)
+LG == INSTANCE Ledger
+LedgerDrift(c) ==
+  IF c.exc # "" \/ ~Has(c, "ledger") THEN {}
+  ELSE LET r == LG!LedgerRun(c.ledger) IN
+       IF r.ok THEN {} ELSE {"multiplier-call-trace-rejected-by-the-weight-ledger:" \o r.why}
+ArithModelDrift(c) ==
   IF c.exc # "" \/ ~Has(c, "algo") \/ Len(c.checks) # 1 THEN {}
   ELSE LET k == c.algo
            m == AlgoModel(k)
@@ -175,4 +181,5 @@ ArithDrift(c) ==
                THEN {"emitted-netlist-differs-from-the-algorithm-model"}
           ELSE IF ResultLabels(k) # [j \in DOMAIN m.out |-> Lab(m.out[j])] THEN {"returned-labels-differ-from-the-algorithm-model"}
           ELSE {}
+ArithDrift(c) == ArithModelDrift(c) \cup LedgerDrift(c)
 =============================================================================
